@@ -129,7 +129,10 @@ def prepare_work(work, sites):
             text = text + "\n" + open(os.path.join(VERIF, "harness", inc)).read()
         open(os.path.join(moddir, modname + ".rs"), "w").write(text)
         # model-tier harness modules only exist in the model build (a check may mix both builds in one copy)
-        gate = 'all(kani, feature = "%s")' % GUARD if s.endswith("_model") else "kani"
+        # (decided by the builds of the harnesses registered at the site, not by the site's name: a site whose harnesses
+        # all need the model build must not be compiled into the real build)
+        builds = {spec.get("build", "real") for spec in registry.HARNESSES.values() if spec["site"] == s}
+        gate = 'all(kani, feature = "%s")' % GUARD if builds == {"model"} else "kani"
         with open(parent, "a") as f:
             f.write("\n#[cfg(%s)]\nmod %s;\n" % (gate, modname))
 
